@@ -34,7 +34,7 @@ def run(chk):
     chk.add(Ob("every exported *Point method is either a covered producer or a reader (%d methods)" % len(methods), "unsat" if not unknown else "uncovered:%s" % unknown, 0, [], "API surface from SSA"))
     items = list(field_contracts(base, chk))
     l1 = L1m.L1(base, chk)
-    items += [("lemmas", l1.lemmas), ("internal", lambda: L1m.internal_contracts(l1)), ("completeness", lambda: L1m.completeness(l1))]
+    items += [("lemmas", l1.lemmas), ("internal", lambda: L1m.internal_contracts(l1)), ("completeness", lambda: L1m.completeness(l1)), ("selector primitives", lambda: L1m.selector_contracts(l1))]
     for al in ("distinct", "zero receiver", "v=p", "v=q", "p=q", "v=p=q"):
         items.append(("Add " + al, lambda al=al: L1m.api_add_sub(l1, False, al)))
         items.append(("Subtract " + al, lambda al=al: L1m.api_add_sub(l1, True, al)))
